@@ -15,45 +15,46 @@ EXTENDS ZDet, Json, IOUtils
 
 VARIABLES l,      \* next trace line
           bad,    \* a mismatch was seen in the current run
-          dumpn   \* number of dump keys of a run (write-once as well), -1: not yet known
+          dumpn,  \* number of dump keys of a run (write-once as well), -1: not yet known
+          cnt     \* dump events seen in the current run
 
 Trace == ndJsonDeserialize(IOEnv.ZR_TRACE)
 E == Trace[l]
 
-tvars == <<dvars, l, bad, dumpn>>
+tvars == <<dvars, l, bad, dumpn, cnt>>
 
 Frozen == UNCHANGED <<log, store, wb, batching, dup, pend, pos, wall, snap, run, restarts>>
 
 TInit == /\ log = <<>> /\ store = EmptyStore /\ wb = <<>> /\ batching = FALSE /\ dup = {}
          /\ pend = <<>> /\ pos = 1 /\ wall = 0 /\ snap = 0 /\ run = 1 /\ restarts = 0
          /\ reply = EmptyMap /\ dump = EmptyMap /\ conflict = FALSE
-         /\ l = 1 /\ bad = FALSE /\ dumpn = -1
+         /\ l = 1 /\ bad = FALSE /\ dumpn = -1 /\ cnt = 0
 
 Mismatch(expected) == /\ bad' = TRUE
                       /\ PrintT(<<"MISMATCH", l, expected>>)
-                      /\ UNCHANGED <<reply, dump, conflict, dumpn>>
+                      /\ UNCHANGED <<reply, dump, conflict, dumpn, cnt>>
 
 TNext ==
   /\ l <= Len(Trace)
   /\ l' = l + 1
   /\ Frozen
   /\ CASE E.ev = "log" -> /\ reply' = EmptyMap /\ dump' = EmptyMap /\ conflict' = FALSE
-                          /\ dumpn' = -1 /\ bad' = FALSE
-       [] E.ev = "run" -> bad' = FALSE /\ UNCHANGED <<reply, dump, conflict, dumpn>>
+                          /\ dumpn' = -1 /\ bad' = FALSE /\ cnt' = 0
+       [] E.ev = "run" -> bad' = FALSE /\ cnt' = 0 /\ UNCHANGED <<reply, dump, conflict, dumpn>>
        [] OTHER ->
-          IF bad THEN UNCHANGED <<reply, dump, conflict, dumpn, bad>>
+          IF bad THEN UNCHANGED <<reply, dump, conflict, dumpn, bad, cnt>>
           ELSE CASE E.ev = "reply" ->
                       LET t == Trigger(reply, conflict, E.idx, E.r)
                       IN IF t[2] THEN Mismatch(reply[E.idx])
-                         ELSE reply' = t[1] /\ UNCHANGED <<dump, conflict, dumpn, bad>>
+                         ELSE reply' = t[1] /\ UNCHANGED <<dump, conflict, dumpn, bad, cnt>>
                  [] E.ev = "dump" ->
                       LET t == Trigger(dump, conflict, E.k, E.v)
                       IN IF t[2] THEN Mismatch(dump[E.k])
-                         ELSE dump' = t[1] /\ UNCHANGED <<reply, conflict, dumpn, bad>>
+                         ELSE dump' = t[1] /\ cnt' = cnt + 1 /\ UNCHANGED <<reply, conflict, dumpn, bad>>
                  [] E.ev = "dumpn" ->
-                      IF dumpn = -1 \/ dumpn = E.n
-                      THEN dumpn' = E.n /\ UNCHANGED <<reply, dump, conflict, bad>>
-                      ELSE Mismatch(dumpn)
+                      IF (dumpn = -1 \/ dumpn = E.n) /\ cnt = E.n
+                      THEN dumpn' = E.n /\ UNCHANGED <<reply, dump, conflict, bad, cnt>>
+                      ELSE Mismatch(IF cnt # E.n THEN cnt ELSE dumpn)
                  [] OTHER -> Mismatch("no such action")
 
 TSpec == TInit /\ [][TNext]_tvars
